@@ -498,3 +498,273 @@ fn c11_l3_array_indef_nested_break() {
   core::mem::forget(r);
   core::mem::forget(want);
 }
+
+// ------------------------------------------------------------------ L3: container framing
+//
+// The container loops of decode_array / decode_map with `decode_item` replaced by a
+// contract stub, which removes the decoder's recursion (the reason the harness above
+// never completed). The stub is *deterministic and faithful* to the real decode_item on
+// the alphabet the harnesses draw from (one-byte integer and simple-value heads, one-byte
+// tag heads whose content is one such item, and the break byte), so a counterexample
+// replays natively against the real functions and through `decode_cbor`.
+
+/// Contract of `decode_item` on the frame alphabet: an integer / simple head is a whole
+/// item; a tag consumes one more head, which must not be a break; a break is an error.
+pub fn di_frame_stub<R: ciborium_io::Read>(
+  d: &mut Decoder<R>,
+  header: Header,
+  _start: usize,
+  _head_len: usize,
+) -> Result<Value, DecodeError>
+where
+  ciborium_ll::Error<R::Error>: Into<DecodeError>,
+{
+  match header {
+    Header::Break => Err(DecodeError::UnexpectedBreak),
+    Header::Tag(_) => {
+      let h = d.pull().map_err(Into::into)?;
+      if h == Header::Break {
+        Err(DecodeError::UnexpectedBreak)
+      } else {
+        Ok(Value::Null)
+      }
+    }
+    _ => Ok(Value::Null),
+  }
+}
+
+#[inline(always)]
+fn frame_tag(b: u8) -> bool {
+  b >= 0xc0 && b <= 0xd7
+}
+/// One-byte heads that are whole items, one-byte tags, and the break byte.
+#[inline(always)]
+fn frame_byte(b: u8) -> bool {
+  b < 0x18 || (b >= 0x20 && b < 0x38) || (b >= 0xf4 && b <= 0xf7) || frame_tag(b) || b == 0xff
+}
+/// Frame alphabet on 4 bytes; a tag is never followed by another tag (the stub models one
+/// level of tag content).
+fn frame_assume(p: &[u8; 4]) {
+  kani::assume(frame_byte(p[0]) && frame_byte(p[1]) && frame_byte(p[2]) && frame_byte(p[3]));
+  kani::assume(!(frame_tag(p[0]) && frame_tag(p[1])));
+  kani::assume(!(frame_tag(p[1]) && frame_tag(p[2])));
+  kani::assume(!(frame_tag(p[2]) && frame_tag(p[3])));
+}
+/// Reference: one item starting at `i` inside p[..n]; returns the index after it, or
+/// None when truncated or when a break stands where an item (or a tag's content) must be.
+#[inline(always)]
+fn frame_item(p: &[u8; 4], n: usize, i: usize) -> Option<usize> {
+  if i >= n || p[i] == 0xff {
+    return None;
+  }
+  if frame_tag(p[i]) {
+    if i + 1 >= n || p[i + 1] == 0xff {
+      return None;
+    }
+    return Some(i + 2);
+  }
+  Some(i + 1)
+}
+
+/// `decode_array(None)` on every frame of ≤ 4 bytes over the frame alphabet: Ok exactly
+/// when complete items are followed by a break in *element position* (RFC 8949 §3.2.2),
+/// with one element per item and the break consumed; a break in the position of a tag's
+/// content, or running out of bytes, is an error.
+#[kani::proof]
+#[kani::unwind(6)]
+#[kani::stub(cddl::validator::cbor_value::decode_item, di_frame_stub)]
+fn c11_l3_array_indef_frame4() {
+  let p: [u8; 4] = kani::any();
+  let n: usize = kani::any();
+  kani::assume(n <= 4);
+  frame_assume(&p);
+  let mut d = Decoder::from(&p[..n]);
+  let r = cv::decode_array(&mut d, None);
+  // reference
+  let mut i = 0usize;
+  let mut count = 0usize;
+  let mut want: Option<(usize, usize)> = None; // (elements, bytes consumed)
+  let mut k = 0;
+  while k < 5 {
+    if i < n && p[i] == 0xff {
+      want = Some((count, i + 1));
+      break;
+    }
+    match frame_item(&p, n, i) {
+      Some(j) => {
+        i = j;
+        count += 1;
+      }
+      None => break,
+    }
+    k += 1;
+  }
+  match (&r, want) {
+    (Ok(items), Some((c, used))) => assert!(items.len() == c && d.offset() == used),
+    (Err(_), None) => {}
+    _ => assert!(false),
+  }
+  kani::cover!(matches!(want, Some((3, 4))));
+  kani::cover!(matches!(want, Some((1, 3))) && frame_tag(p[0]));
+  kani::cover!(want.is_none() && n == 3 && frame_tag(p[0]) && p[1] == 0xff && p[2] == 0xff);
+  kani::cover!(want.is_none() && n == 4 && p[3] != 0xff);
+  core::mem::forget(r);
+}
+
+#[kani::proof]
+#[kani::unwind(4)]
+#[kani::stub(cddl::validator::cbor_value::decode_item, di_frame_stub)]
+fn c11_l3_array_indef_frame3() {
+  let p: [u8; 4] = kani::any();
+  let n: usize = kani::any();
+  kani::assume(n <= 3);
+  frame_assume(&p);
+  let mut d = Decoder::from(&p[..n]);
+  let r = cv::decode_array(&mut d, None);
+  // reference
+  let mut i = 0usize;
+  let mut count = 0usize;
+  let mut want: Option<(usize, usize)> = None; // (elements, bytes consumed)
+  let mut k = 0;
+  while k < 3 {
+    if i < n && p[i] == 0xff {
+      want = Some((count, i + 1));
+      break;
+    }
+    match frame_item(&p, n, i) {
+      Some(j) => {
+        i = j;
+        count += 1;
+      }
+      None => break,
+    }
+    k += 1;
+  }
+  match (&r, want) {
+    (Ok(items), Some((c, used))) => assert!(items.len() == c && d.offset() == used),
+    (Err(_), None) => {}
+    _ => assert!(false),
+  }
+  kani::cover!(matches!(want, Some((2, 3))));
+  kani::cover!(matches!(want, Some((1, 3))) && frame_tag(p[0]));
+  kani::cover!(want.is_none() && n == 3 && frame_tag(p[0]) && p[1] == 0xff && p[2] == 0xff);
+  core::mem::forget(r);
+}
+
+/// `decode_map(None)` on every frame of ≤ 4 bytes over the frame alphabet: Ok exactly when
+/// complete key/value pairs are followed by a break in *key position*; a break where a
+/// value (or a tag's content) must stand is an error, as is an odd number of items.
+#[kani::proof]
+#[kani::unwind(6)]
+#[kani::stub(cddl::validator::cbor_value::decode_item, di_frame_stub)]
+fn c11_l3_map_indef_frame4() {
+  let p: [u8; 4] = kani::any();
+  let n: usize = kani::any();
+  kani::assume(n <= 4);
+  frame_assume(&p);
+  let mut d = Decoder::from(&p[..n]);
+  let r = cv::decode_map(&mut d, None);
+  let mut i = 0usize;
+  let mut count = 0usize;
+  let mut want: Option<(usize, usize)> = None;
+  let mut k = 0;
+  while k < 3 {
+    if i < n && p[i] == 0xff {
+      want = Some((count, i + 1));
+      break;
+    }
+    let j = match frame_item(&p, n, i) {
+      Some(j) => j,
+      None => break,
+    };
+    match frame_item(&p, n, j) {
+      Some(j2) => {
+        i = j2;
+        count += 1;
+      }
+      None => break,
+    }
+    k += 1;
+  }
+  match (&r, want) {
+    (Ok(entries), Some((c, used))) => assert!(entries.len() == c && d.offset() == used),
+    (Err(_), None) => {}
+    _ => assert!(false),
+  }
+  kani::cover!(matches!(want, Some((1, 3))));
+  kani::cover!(matches!(want, Some((0, 1))));
+  kani::cover!(want.is_none() && n == 3 && p[1] == 0xff && p[2] == 0xff); // break as a value
+  kani::cover!(want.is_none() && n == 4 && p[3] == 0xff && !frame_tag(p[0]) && !frame_tag(p[1]) && !frame_tag(p[2]));
+  core::mem::forget(r);
+}
+
+/// `decode_array(Some(k))` / `decode_map(Some(k))`, k ∈ 0..=2 symbolic, on ≤ 4 frame bytes:
+/// exactly k items (pairs) are consumed, a break anywhere inside is an error, nothing
+/// after the last item is read.
+#[kani::proof]
+#[kani::unwind(6)]
+#[kani::stub(cddl::validator::cbor_value::decode_item, di_frame_stub)]
+fn c11_l3_array_def_frame4() {
+  let p: [u8; 4] = kani::any();
+  let n: usize = kani::any();
+  kani::assume(n <= 4);
+  frame_assume(&p);
+  let k: usize = kani::any();
+  kani::assume(k <= 2);
+  let mut d = Decoder::from(&p[..n]);
+  let r = cv::decode_array(&mut d, Some(k));
+  let mut i = 0usize;
+  let mut ok = true;
+  let mut c = 0;
+  while c < 2 {
+    if c < k && ok {
+      match frame_item(&p, n, i) {
+        Some(j) => i = j,
+        None => ok = false,
+      }
+    }
+    c += 1;
+  }
+  match &r {
+    Ok(items) => assert!(ok && items.len() == k && d.offset() == i),
+    Err(_) => assert!(!ok),
+  }
+  kani::cover!(ok && k == 2 && i == 4);
+  kani::cover!(!ok && k == 2 && n == 2 && p[1] == 0xff);
+  kani::cover!(ok && k == 0);
+  core::mem::forget(r);
+}
+
+#[kani::proof]
+#[kani::unwind(6)]
+#[kani::stub(cddl::validator::cbor_value::decode_item, di_frame_stub)]
+fn c11_l3_map_def_frame4() {
+  let p: [u8; 4] = kani::any();
+  let n: usize = kani::any();
+  kani::assume(n <= 4);
+  frame_assume(&p);
+  let k: usize = kani::any();
+  kani::assume(k <= 2);
+  let mut d = Decoder::from(&p[..n]);
+  let r = cv::decode_map(&mut d, Some(k));
+  let mut i = 0usize;
+  let mut ok = true;
+  let mut c = 0;
+  while c < 4 {
+    if c < 2 * k && ok {
+      match frame_item(&p, n, i) {
+        Some(j) => i = j,
+        None => ok = false,
+      }
+    }
+    c += 1;
+  }
+  match &r {
+    Ok(entries) => assert!(ok && entries.len() == k && d.offset() == i),
+    Err(_) => assert!(!ok),
+  }
+  kani::cover!(ok && k == 2 && i == 4);
+  kani::cover!(ok && k == 1 && i == 3);
+  kani::cover!(!ok && k == 1 && n == 2 && p[1] == 0xff);
+  core::mem::forget(r);
+}
